@@ -33,7 +33,17 @@ def flat_and_lens(arr):
 SENT = {"b": True, "i": 77, "u": 77, "f": 7.5}
 
 
+_PRE = [None]
+
+
 def build(arr, via="flat"):
+    a = _build(arr, via)
+    if _PRE[0]:
+        pre_reads(a, _PRE[0])
+    return a
+
+
+def _build(arr, via="flat"):
     """Realise the abstract array <<dt, rows>> as a RaggedArray.  `via` chooses HOW (C06: a derived array must
     behave like a freshly built one): fresh from rows / flat+lengths, or as a still-pending selection of a
     bigger array whose extra cells are sentinels."""
@@ -69,13 +79,49 @@ def build(arr, via="flat"):
         order = list(range(n))[::-1]
         big = RaggedArray([dec_seq(rows[i], dt) for i in order] + [np.array([s], dtype=npdt)], dtype=npdt)
         return big[[order.index(i) for i in range(n)]]
+    if via == "assigned":                      # the result of sort(), whose whole content was then assigned
+        if not lens or data.size == 0:
+            return RaggedArray(data, lens, dtype=npdt)
+        base = RaggedArray(np.sort(data), lens, dtype=npdt).sort(axis=-1)
+        base[...] = RaggedArray(data, lens, dtype=npdt)
+        return base
     if via == "ufunc":                         # result of an element-wise operation
         a = RaggedArray(data, lens, dtype=npdt)
         return np.positive(a) if kind(dt) != "b" else np.logical_or(a, a)
     raise ValueError(via)
 
 
-VIAS = ["rows", "flat", "shape", "rowview", "colview", "stepview", "revview", "listview", "ufunc"]
+VIAS = ["rows", "flat", "shape", "rowview", "colview", "stepview", "revview", "listview", "ufunc", "assigned"]
+
+
+def pre_reads(a, pre):
+    """read-only operations performed on the operand before the operation under test: they must change nothing (C10)"""
+    for k in pre or ():
+        try:
+            if k == "sum":
+                a.sum(axis=-1)
+            elif k == "repr":
+                repr(a)
+            elif k == "size":
+                a.size
+            elif k == "unique":
+                np.unique(a, axis=-1)
+            elif k == "max":
+                if len(a) and all(l > 0 for l in a.lengths):
+                    a.max(axis=-1)
+            elif k == "rowmean":
+                if a.size:
+                    a.mean(axis=-1)
+            elif k == "any":
+                a.any(axis=-1)
+            elif k == "pad":
+                if len(a):
+                    a.as_padded_matrix()
+            elif k == "colsum":
+                if a.size:
+                    a.sum(axis=0)
+        except Exception:
+            pass
 
 
 # ------------------------------------------------------------------ projecting results
@@ -492,6 +538,7 @@ def execute(case, opts=None):
     w = o.get("width")
     if w:
         ViewBase.set_dtype(np.int32 if w == 32 else np.int64)
+    _PRE[0] = o.get("pre")
     try:
         return OPS[case[0]](case, o)
     except AssertionError as e:
